@@ -358,6 +358,16 @@ def storeLine (o : OSt) (line : String) : OSt :=
   | _ => o.flag (.bad s!"line: {line}")
 
 
+/-- `kind=readduringdelete`: a read of an already processed height while DeleteRange is under way must not bring it back -/
+def evalReadDuringDelete (_ins outs : List String) : Verdict :=
+  match kv? outs "delete", kv? outs "byheight", kv? outs "byhash", kv? outs "has" with
+  | some del, some bh, some bx, some has =>
+    if del != "ok" then .prop "c14_error_returned" s!"delete={del} although no handler failed" else
+    if bh != "-" || bx != "-" || has != "-" then
+      .prop "c08_removed" s!"DeleteRange returned nil, still retrievable: by height {bh}, by hash {bx}, Has {has}"
+    else .ok "readduringdelete"
+  | _, _, _, _ => .bad "readduringdelete fields"
+
 /-- `kind=stopsync`: Stop overlapping a Sync with unflushed headers: after the restart everything appended before Stop is there -/
 def evalStopSync (_ins outs : List String) : Verdict :=
   match kv? outs "stop", kvNat? outs "head", (kv? outs "stored").bind natList?, kvNat? outs "want" with
@@ -417,6 +427,7 @@ def evalFlushInHandler (ins outs : List String) : Verdict :=
 healed (`kind=parfail`).  Pure predicates from the texts of C08 / C14 / C04 on the implementation's observation. -/
 def evalParFail (tag : String) (ins outs : List String) : Verdict :=
   if kv? ins "kind" == some "stopsync" then evalStopSync ins outs else
+  if kv? ins "kind" == some "readduringdelete" then evalReadDuringDelete ins outs else
   if kv? ins "kind" == some "queued" then evalQueued ins outs else
   if kv? ins "kind" == some "delfault" then evalDelFault ins outs else
   if kv? ins "kind" == some "flushinhandler" then evalFlushInHandler ins outs else
